@@ -3,7 +3,13 @@ import math, random
 from vlib.common import CheckerError, harness_many
 
 META = {
-    "level": "exploration",
+    "level": "other",
+    "structural": "Deductive part (lemmas over contracts, no code of their own; contracts/c_pipeline.py): from the postconditions of the stage contracts -- C03 (every function has exactly one unique "
+                  "entry), combine_DL R1 (the row of a unique function carries the minimum over its variants with a non-NaN description length, with the three terms of ONE variant), combine_DL R2 "
+                  "(one row per unique function with a non-NaN minimum, rows sorted) and C05 (the likelihood reported for a variant is the likelihood of its own function at the reported "
+                  "parameters) -- it follows for any library and data that the top-ranked description length is <= the description length of every variant of every tree, and that every row is "
+                  "the sum of its three terms with a reproducible likelihood term. The lemmas restate those postconditions over abstract indices (the stage contracts themselves are verified "
+                  "in C03, C05, C06; that a unique function's fit IS its maximum-likelihood point is C10's bounded claim).",
     "text": "Bounded stand-in on the real code: generation (duplicate_checker.main) of the shipped bases core_maths (complexities 3, 4; thorough "
             "also 5) and ext_maths (thorough: 3, 4), then test_all.main, test_all_Fisher.main, match.main and combine_DL.main on the forked MPI "
             "stand-in (1 rank, some runs on 3) for data sets drawn from planted truths of the library (constant, a0*x, a0 + x, a0/x, a0 + 1/x, power "
@@ -21,7 +27,7 @@ META = {
             "tree is singular; several maximum-likelihood values of a0) the independent side takes the largest admissible description length. "
             "The optimiser of the fit stage is seeded (numpy seed 1234 + run seed) and given 30 s per function instead of 5 s so that machine load "
             "cannot change the result.",
-    "technique": "bounded stand-in (full pipeline on planted truths vs independent closed forms) on the real code",
+    "technique": "composition lemmas over the stage contracts (SMT) + bounded stand-in (full pipeline on planted truths vs independent closed forms) on the real code",
 }
 CHECKER = "./bin/check C04"
 
@@ -106,8 +112,33 @@ def jobs(tier, seed):
     return out
 
 
+def lemmas(run):
+    import z3
+    from vlib import deductive as D
+    from contracts import c_pipeline
+    ls = c_pipeline.lemmas()
+    # vacuity guard: the hypotheses of each lemma are satisfiable (a cover), and the conclusion does not hold without them
+    for nm, f in ls:
+        s_ = z3.Solver()
+        s_.set("timeout", 10000)
+        s_.add(f.arg(0))
+        if s_.check() != z3.sat:
+            raise CheckerError("composition lemma '%s': hypotheses are not satisfiable (vacuous)" % nm[:40])
+        s2 = z3.Solver()
+        s2.set("timeout", 10000)
+        s2.add(z3.Not(f.arg(1)))
+        if s2.check() != z3.sat:
+            raise CheckerError("composition lemma '%s': the conclusion is valid on its own (vacuous)" % nm[:40])
+    bad = D.prove_lemmas(run, "C04 from the stage contracts", ls)
+    run.assume("the lemmas restate the postconditions of the stage contracts (C03 library predicate, combine_DL R1/R2, C05) over abstract indices; those contracts are verified or bounded in their own checks",
+               "C10: the fit of a unique function is its maximum-likelihood point (bounded there)")
+    run.trust("z3 5.1.0")
+    return bad
+
+
 def check(run):
     tier = run.tier
+    lbad = lemmas(run)
     js = jobs(tier, run.seed)
     calls = [("rt_c04.py", j, {"root": run.fresh_copy(), "timeout": 1200 if tier == "quick" else 3000}) for j in js]
     results = harness_many(run, calls, workers=14)
@@ -167,6 +198,10 @@ def check(run):
             run.violation(f["key"], "%s complexity %d, %s on %d rank(s), data set %s: %s" % (
                 j["runname"], j["comp"], j["cls"], j["P"], f.get("dataset"), f["error"][:1100]),
                 {"harness": "rt_c04.py", "payload": pay, "fresh_copy": True, "timeout": 3000})
-    return run.finish("exploration", META["text"], CHECKER,
+    if lbad and not run.violations:
+        nm, model = lbad[0]
+        run.violation("c04:lemma:" + nm.split(":")[0], "composition lemma no longer follows from the stage contracts: %s" % nm,
+                      {"obligation": nm, "model": str(model)[:2000] if model is not None else None}, no_input=True)
+    return run.finish("other", META["structural"] + " " + META["text"], CHECKER,
                       rule="cases = re-evaluated table rows + planted-truth checks + (tree, data set) pairs compared with the top row; "
                            "distinct_nontrivial = (tree, data set) pairs with an independently computed description length")
